@@ -101,7 +101,11 @@ def rand_scenario(rng, focus, sid, max_prov=5, max_pts=3):
     # viaMeta: one provider is not handed to the App; a user-written scanner registers its definition through the public
     # DefinitionRegistry.RegisterMeta (it is a candidate like any other)
     via = rng.randint(2, len(provs)) if len(provs) >= 2 and rng.random() < 0.2 else 0
-    return dict(id=sid, prov=provs, pts=pts, order=order, reg=reg, preset=rng.random() < 0.4, extra=rng.random() < 0.25, viaMeta=via)
+    # viaName: ... under an explicit name of the scanner's choosing instead of the one the component declares through Naming()
+    if via and provs[via - 1]["named"] and focus == "C07" and rng.random() < 0.7:
+        pts[0] = point(rng.choice(["iface", "any", "ptr"]), "wire", via, False, [], rng.random() < 0.6)     # ... and a point asks for it by that name
+    return dict(id=sid, prov=provs, pts=pts, order=order, reg=reg, preset=rng.random() < 0.4, extra=rng.random() < 0.25, viaMeta=via,
+                viaName=bool(via and provs[via - 1]["named"] and rng.random() < 0.6), seed=rng.randint(0, 2 ** 31))
 
 
 def with_orders(rng, sc, k):
